@@ -255,6 +255,7 @@ def processLine (st : St) (line : String) : IO St := do
       let passes := ((m.splitOn " #passes=").getD 1 "?")
       let m := (m.splitOn " #passes=").headD m
       st := { st with stats := st.stats.bump s!"resolve_passes_{passes}" }
+      if passes = "4" ∨ passes = "5" then IO.println s!"INFO case={st.caseId} table={handle} resolve_passes={passes} outcome={implOutcome}"
       let same := if m = "panic" ∨ m = "outOfFuel" ∨ m = "model-dead" then m = implOutcome else m = obsS.trimAscii.toString
       if !same then
         IO.println s!"MISMATCH case={st.caseId} op=T {handle} {hex} model={(m.take 200).toString} impl={(obsS.take 200).toString}"
